@@ -341,6 +341,9 @@ func (v *Verifier) verifyFunc(key string, timeout int, tier string) *FuncReport 
 	x := v.newExec(fn, con, timeout)
 	x.retCover = true
 	x.noMerge = os.Getenv("GOWP_NOMERGE") != ""
+	if _, has := con.Options["separate-paths"]; has {
+		x.noMerge = true // branches are not joined: facts about WHICH closure a value is survive
+	}
 	func() {
 		defer func() {
 			if r := recover(); r != nil {
